@@ -444,6 +444,11 @@ func calleeParamLenAtLeast(p *Prog, fn *ssa.Function, prm *ssa.Parameter, k int6
 				n++
 				if env == nil {
 					env = NewLinEnv(p, caller)
+					// the argument may be the result of a helper that checks and reslices (leadingBlocks): its length is the
+					// helper's returned length in the caller's terms
+					env.lenSum = func(c2 *ssa.Function, call2 *ssa.Call, en *LinEnv) ([]*Lin, bool) {
+						return retLenSummary(p, c2, 0, call2, en, 0)
+					}
 				}
 				ls, ok := env.Len(call.Call.Args[idx])
 				if !ok {
